@@ -44,18 +44,23 @@ def size_list(V, tier, rng, upto_mult=2):
     full = list(range(1, upto_mult * V + 4))
     if tier == "thorough":
         return full
-    base = {1, 2, 3, V - 1, V, V + 1, 2 * V - 1, 2 * V, 2 * V + 1, 2 * V + 3}
-    base |= set(rng.sample(full, min(3, len(full))))
-    return sorted(x for x in base if x >= 1)
+    return sorted(set(x for x in (1, V, V + 1, 2 * V + 3) if x >= 1))
 
 def ladder_sizes(V, tier, rng):
-    """sizes hitting every stage of the 8,4,2,1 / 4,2,1 unroll ladders and both _norm / _doublecontract overloads"""
-    s = {4 * V - 1, 4 * V, 4 * V + 1, 5 * V + 2, 6 * V + 1, 7 * V + 3, 8 * V, 8 * V + 1, 9 * V + 1, 11 * V + 2, 12 * V + 1, 15 * V + 3, 16 * V + 5}
+    """sizes hitting every stage of the 8,4,2,1 / 4,2,1 unroll ladders (each stage entered, with and without a scalar tail)
+    and both _norm / _doublecontract overloads; the tail of the 8x stage (>= 8V + tail) included"""
+    s = {4 * V, 4 * V + 1, 7 * V + 3, 8 * V + 1, 15 * V + 3, 16 * V + 5}
     if tier == "thorough":
+        s |= {4 * V - 1, 5 * V + 2, 6 * V + 1, 8 * V, 9 * V + 1, 11 * V + 2, 12 * V + 1}
         s |= set(range(2 * V + 4, 17 * V + 2, max(1, V // 2) if V > 1 else 1))
-    else:
-        s |= set(rng.sample(range(2 * V + 4, 17 * V), 3))
     return sorted(s)
+
+KINDS = ["SUM", "PROD", "TSUM", "TPROD", "NORM", "INNER"]
+
+def red_call(T, n, K, enc="t1", txt="A"):
+    if K == "INNER":
+        return "rs::run_inner<%s,%d,0>();" % (T, n)
+    return 'RED_CASE(%s, %d, %s, "%s", %s);' % (T, n, K, enc, txt)
 
 def sym_groups(tier, seed):
     rng = random.Random(seed * 7717 + 16)
@@ -68,37 +73,35 @@ def sym_groups(tier, seed):
             V = lanes(isa, sz)
             T = "Sym%d" % sz
             calls = []
-            for n in size_list(V, tier, rng):
-                # every size: plain tensor through every entry point
-                for K in ("SUM", "PROD", "TSUM", "TPROD", "NORM"):
-                    calls.append('RED_CASE(%s, %d, %s, "t1", A);' % (T, n, K))
-                calls.append("rs::run_inner<%s,%d,0>();" % (T, n))
-                # lazy expressions: one per size and entry point (all of them in the thorough tier)
+            boundary = size_list(V, tier, rng)
+            for n in boundary:
+                # class boundaries: plain tensor through every entry point, one lazy expression per entry point
+                for K in KINDS:
+                    calls.append(red_call(T, n, K))
                 for enc, txt, mono in (EXPRS[1:] if not quick else [rng.choice(EXPRS[1:])]):
-                    calls.append('RED_CASE(%s, %d, SUM, "%s", %s);' % (T, n, enc, txt))
+                    calls.append(red_call(T, n, "SUM", enc, txt))
                 for enc, txt, mono in (EXPRS[1:] if not quick else [rng.choice([e for e in EXPRS[1:] if e[2] or n <= 6])]):
                     if mono or n <= 6:
-                        calls.append('RED_CASE(%s, %d, PROD, "%s", %s);' % (T, n, enc, txt))
-                if not quick or rng.random() < 0.5:
-                    enc, txt, _ = rng.choice(EXPRS[1:])
-                    calls.append('RED_CASE(%s, %d, NORM, "%s", %s);' % (T, n, enc, txt))
-                    calls.append("rs::run_inner<%s,%d,%d>();" % (T, n, rng.randint(1, 3)))
-            if quick:
-                # every residue modulo V is hit by some entry point: the sizes 1..2V+3 not in the boundary list get one kind each
-                kinds = ["SUM", "PROD", "TSUM", "TPROD", "NORM", "INNER"]
-                listed = set(int(re.search(r", (\d+),", c).group(1)) for c in calls if c.startswith("RED_CASE"))
-                for n in range(1, 2 * V + 4):
-                    if n not in listed:
-                        K = kinds[(n + seed) % len(kinds)]
-                        calls.append("rs::run_inner<%s,%d,0>();" % (T, n) if K == "INNER" else 'RED_CASE(%s, %d, %s, "t1", A);' % (T, n, K))
-            for n in ladder_sizes(V, tier, rng):
-                calls.append('RED_CASE(%s, %d, NORM, "t1", A);' % (T, n))
+                        calls.append(red_call(T, n, "PROD", enc, txt))
                 enc, txt, _ = rng.choice(EXPRS[1:])
-                calls.append('RED_CASE(%s, %d, NORM, "%s", %s);' % (T, n, enc, txt))
-                calls.append("rs::run_inner<%s,%d,0>();" % (T, n))
-                if not quick:
-                    calls.append('RED_CASE(%s, %d, SUM, "t1_t2_add", A + B);' % (T, n))
-            for m in range(1, 6 if quick else 10):
+                calls.append(red_call(T, n, "NORM", enc, txt))
+                calls.append("rs::run_inner<%s,%d,%d>();" % (T, n, rng.randint(1, 3)))
+            if quick:
+                # every residue modulo V is hit by some entry point: the remaining sizes 1..2V+3 get one entry point each
+                for n in range(1, 2 * V + 4):
+                    if n not in boundary:
+                        calls.append(red_call(T, n, KINDS[(n + seed) % len(KINDS)]))
+            for n in ladder_sizes(V, tier, rng):
+                if n in boundary:
+                    continue
+                calls.append(red_call(T, n, "NORM"))
+                enc, txt, _ = rng.choice(EXPRS[1:])
+                calls.append(red_call(T, n, "NORM", enc, txt))
+                calls.append(red_call(T, n, "INNER"))
+                # the single-accumulator expression overloads of sum / product over a long argument (monomial-valued for product)
+                calls.append(red_call(T, n, "SUM", "t1_t2_add", "A + B"))
+                calls.append(red_call(T, n, "PROD", "t1_t2_mul", "A * B"))
+            for m in range(1, 5 if quick else 10):
                 calls.append('TRACE_CASE(%s, %d, "t1", A);' % (T, m))
                 enc, txt, _ = rng.choice(EXPRS[1:])
                 calls.append('TRACE_CASE(%s, %d, "%s", %s);' % (T, m, enc, txt))
@@ -111,17 +114,15 @@ def sym_groups(tier, seed):
     for isa in risas:
         for t in TYPES:
             V = lanes(isa, SZ[t])
-            calls = []
             sizes = size_list(V, tier, rng)
             if quick:
-                sizes = sorted(set([1, V + 1, 2 * V + 3] + rng.sample(sizes, min(4, len(sizes)))))
-            for n in sizes:
-                calls.append('rr::run_minmax<%s,%d>("%s", "%s", %du, %d);' % (t, n, seeds["min"], seeds["max"], ds + n, 0 if quick else 1))
+                sizes = sorted(set([1, V + 1, 2 * V + 3, rng.randint(2, 2 * V + 2)]))
+            calls = ['rr::run_minmax<%s,%d>("%s", "%s", %du, %d);' % (t, n, seeds["min"], seeds["max"], ds + n, 0 if quick else 1) for n in sizes]
             groups.append({"key": "%s/minmax/%s" % (isa, t), "header": "reduce_real.h", "isa": isa, "opt": "-O2", "calls": calls})
         calls = []
-        for n in range(1, 9 if quick else 11):
+        for n in ((1, 2, 3, 5, 8) if quick else range(1, 11)):
             calls += ["rr::run_pred<%d,0>();" % n, "rr::run_pred<%d,1>();" % n]
-        for m in (range(1, 9) if (not quick or isa == "sse2") else []):
+        for m in (((1, 2, 3, 5, 8) if quick else range(1, 9)) if (not quick or isa == "sse2") else []):
             calls.append("rr::run_detqr_rat<%d>(%du);" % (m, ds))
         for m in (range(2, 9) if not quick else rng.sample(range(2, 9), 2)):
             calls.append("rr::run_detqr_real<%s,%d>(%du);" % (rng.choice(["float", "double"]), m, ds))
@@ -141,22 +142,35 @@ def real_groups(tier, seed):
             V = lanes(isa, SZ[t])
             fp = t in ("float", "double")
             calls = []
-            sizes = size_list(V, tier, rng) + ladder_sizes(V, tier, rng)[:: (1 if not quick else 4)]
             if quick:
-                # 4 and 9: the intrinsic specialisations _norm<float,4>, _norm<float,9>, _norm<double,4>, _norm<double,9>
-                sizes = sorted(set([1, 4, 9, V + 1, 2 * V + 3, sizes[-1]] + rng.sample(sizes, 2)))
+                # 4 and 9: the intrinsic specialisations _norm<float,4>, _norm<float,9>, _norm<double,4>, _norm<double,9>;
+                # 8V+1 / 16V+5: the unroll ladders of _norm / _doublecontract on the real vectors
+                sizes = sorted(set([1, 4, 9, V + 1, 2 * V + 3, 8 * V + 1 if isa != "avx512" else 16 * V + 5]))
+            else:
+                sizes = size_list(V, tier, rng) + ladder_sizes(V, tier, rng)
             for n in sizes:
                 calls.append("rr::run_rsum<%s,%d>(%du);" % (t, n, ds + n))
             for m in range(1, 5 if quick else 9):
                 calls.append("rr::run_rmat<%s,%d>(%du);" % (t, m, ds + m))
+            # reductions over views and over comparison / classification expressions (tensor, expression, requires-evaluation)
+            for n in (sorted(set([1, V + 2, 2 * V + 3])) if quick else sorted(set([1, 2, V, V + 2, 2 * V + 3, 4 * V + 1]))):
+                calls.append("rr::run_rview<%s,%d>(%du);" % (t, n, ds + n))
+            calls.append("rr::run_rview2<%s,%d,%d>(%du);" % (t, 3, 2 * V + 1, ds))
+            for (m, n) in ([(2, V + 1)] if quick else [(1, 1), (2, V + 1), (3, 3), (V, 2)]):
+                calls.append("rr::run_rbool<%s,%d,%d>(%du);" % (t, m, n, ds))
             if fp:
+                for (b, m) in [(2, 2), (2, 3), (3, 4)]:
+                    calls.append("rr::run_rbatch<%s,%d,%d>(%du);" % (t, b, m, ds))
                 for m in range(1, 6):
                     calls.append("rr::run_detreal<%s,%d,0>(%du);" % (t, m, ds + m))
-                for m in (range(1, 9) if not quick else sorted(set([2, 8, rng.randint(3, 7)]))):
+                for m in (range(1, 9) if not quick else sorted(set([2, rng.randint(5, 8)]))):
                     calls.append("rr::run_detreal<%s,%d,1>(%du);" % (t, m, ds + m))
-                for n in (sizes if not quick else rng.sample(sizes, 3)):
+                for n in (sizes if not quick else [sizes[-1], rng.choice(sizes[1:-1])]):
                     calls.append("rr::run_fbound<%s,%d>(%du);" % (t, n, ds + n))
             groups.append({"key": "%s/real/%s" % (isa, t), "header": "reduce_real.h", "isa": isa, "opt": "-O2", "calls": calls})
+        # complex element types (sum / product / inner exact on Gaussian integers; norm: known finding CNORM)
+        calls = ["rr::run_cplx<%s,%d>(%du);" % (r, n, ds) for r in ("float", "double") for n in ((1, 5, 2 * lanes(isa, 4) + 1) if quick else (1, 2, 3, 5, 9, 17, 35))]
+        groups.append({"key": "%s/cplx" % isa, "header": "reduce_real.h", "isa": isa, "opt": "-O2", "calls": calls})
         # the real horizontal steps of every SIMDVector<T,ABI> that exists under this ISA, lane by lane
         abis = {"scalar": [], "sse2": ["sse"], "sse42": ["sse"], "avx": ["sse", "avx"], "avx2": ["sse", "avx"], "avx512": ["sse", "avx", "avx512"]}[isa]
         calls = ['rr::run_hvec<%s,Fastor::simd_abi::%s>("%s", %du);' % (t, a, a, ds) for a in abis + ["scalar"] for t in TYPES]
@@ -164,94 +178,26 @@ def real_groups(tier, seed):
         if not quick or isa == "avx2":
             calls = []
             for m in range(1, 9):
-                calls += ["rr::run_detrat<%d,0>(%du);" % (m, ds + m), "rr::run_detrat<%d,1>(%du);" % (m, ds + m)]
+                if not quick or m <= 5:
+                    calls.append("rr::run_detrat<%d,0>(%du);" % (m, ds + m))
+                if not quick or m in (1, 2, 3, 5, 8):
+                    calls.append("rr::run_detrat<%d,1>(%du);" % (m, ds + m))
             groups.append({"key": "%s/detrat" % isa, "header": "reduce_real.h", "isa": isa, "opt": "-O2", "calls": calls})
     return groups
 
+# ---- horizontal helpers of extintrin.h: executed by the driver from the definitions generated by vlib/xlate_simd.py ------
+HSTEP_FNS = ["hmax_ps", "hmin_ps", "hmax_pd", "hmin_pd", "sum_ps", "prod_ps", "sum_pd", "prod_pd", "sum_epi32", "prod_epi32",
+             "hmax256_ps", "hmin256_ps", "hmax256_pd", "hmin256_pd", "sum256_ps", "prod256_ps", "sum256_pd", "prod256_pd"]
 
-# ---- horizontal helpers of extintrin.h (X2-lite): normalised body text + shuffle immediates ------------------------
-HFUNCS = ['_mm_reverse_ps', '_mm_reverse_pd', '_mm256_reverse_pd', '_mm_hmax_ps', '_mm_hmax_pd', '_mm256_hmax_ps', '_mm256_hmax_pd', '_mm_hmin_ps', '_mm_hmin_pd', '_mm256_hmin_ps', '_mm256_hmin_pd', '_mm_sum_ps', '_mm_sum_pd', '_mm_prod_ps', '_mm_prod_pd', '_mm256_sum_ps', '_mm256_sum_pd', '_mm256_prod_ps', '_mm256_prod_pd']
-# sha1[:12] of the normalised body text and the immediates the model (Model/Horizontal.lean) and the theorems
-# (hmax_ps_correct ... hprod256_pd_tree) were written for
-HEXPECT = {
-    '_mm_reverse_ps': ('c53a58af73e4', [27]),
-    '_mm_reverse_pd': ('7baaae9a8632', [1]),
-    '_mm256_reverse_pd': ('7dd3671c19f6', [1, 5]),
-    '_mm_hmax_ps': ('b53b570659d9', [1]),
-    '_mm_hmax_pd': ('1c5063cbee7c', []),
-    '_mm256_hmax_ps': ('8909aa8d341e', [1, 1, 1]),
-    '_mm256_hmax_pd': ('01445fcc01b5', [1]),
-    '_mm_hmin_ps': ('f68fe487d97b', [1]),
-    '_mm_hmin_pd': ('39d983e9fa6d', []),
-    '_mm256_hmin_ps': ('4c7c11a8fd09', [1, 1, 1]),
-    '_mm256_hmin_pd': ('42963aa7b55e', [1]),
-    '_mm_sum_ps': ('758d1d6b12be', [245]),
-    '_mm_sum_pd': ('1613d4b68f42', []),
-    '_mm_prod_ps': ('d52857a4ca6d', [245]),
-    '_mm_prod_pd': ('f7a5b7274ab5', []),
-    '_mm256_sum_ps': ('8d271ed972eb', [1, 1]),
-    '_mm256_sum_pd': ('c9aa6a235ddb', [5, 1]),
-    '_mm256_prod_ps': ('2546cbd360bc', [1]),
-    '_mm256_prod_pd': ('c1576bd842ac', [5, 1]),
-}
-
-def extract_helpers():
-    """body text of each straight-line helper (last definition in the file), comments and white space removed, the
-    shuffle immediates replaced by '#' and returned separately"""
-    import hashlib
-    src = open(os.path.join(core.REPO, "Fastor/simd_vector/extintrin.h")).read()
-    out = {}
-    for fn in HFUNCS:
-        ms = list(re.finditer(r"FASTOR_INLINE\s+\w+\s+%s\(([^)]*)\)\s*\{(.*?)\n\}" % re.escape(fn), src, re.S))
-        if not ms:
-            out[fn] = {"sha": "missing", "imms": []}; continue
-        body = ms[-1].group(2)
-        body = re.sub(r"//[^\n]*", "", body)
-        body = re.sub(r"/\*.*?\*/", "", body, flags=re.S)
-        body = re.sub(r"\s+", "", body)
-        imms = []
-        def sh(m):
-            z, y, x, w = (int(g) for g in m.groups()); imms.append(z * 64 + y * 16 + x * 4 + w); return "#"
-        body = re.sub(r"_MM_SHUFFLE\((\d),(\d),(\d),(\d)\)", sh, body)
-        def lit(m):
-            imms.append(int(m.group(1), 0)); return ",#)"
-        body = re.sub(r",(0x[0-9a-fA-F]+|\d+)\)", lit, body)
-        out[fn] = {"sha": hashlib.sha1(body.encode()).hexdigest()[:12], "imms": imms}
-    return out
-
-# helper -> (source functions it is built from, how the model's immediate list is assembled from theirs)
-HSTEPS = {
-    "hmax_ps": (["_mm_hmax_ps", "_mm_reverse_ps"], lambda h: h["_mm_reverse_ps"] + h["_mm_hmax_ps"]),
-    "hmin_ps": (["_mm_hmin_ps", "_mm_reverse_ps"], lambda h: h["_mm_reverse_ps"] + h["_mm_hmin_ps"]),
-    "hmax_pd": (["_mm_hmax_pd", "_mm_reverse_pd"], lambda h: h["_mm_reverse_pd"]),
-    "hmin_pd": (["_mm_hmin_pd", "_mm_reverse_pd"], lambda h: h["_mm_reverse_pd"]),
-    "sum_ps": (["_mm_sum_ps"], lambda h: h["_mm_sum_ps"]),
-    "prod_ps": (["_mm_prod_ps"], lambda h: h["_mm_prod_ps"]),
-    "sum_pd": (["_mm_sum_pd"], lambda h: []),
-    "prod_pd": (["_mm_prod_pd"], lambda h: []),
-    "hmax256_ps": (["_mm256_hmax_ps", "_mm_reverse_ps"], lambda h: h["_mm_reverse_ps"] + h["_mm256_hmax_ps"]),
-    "hmin256_ps": (["_mm256_hmin_ps", "_mm_reverse_ps"], lambda h: h["_mm_reverse_ps"] + h["_mm256_hmin_ps"]),
-    "hmax256_pd": (["_mm256_hmax_pd", "_mm256_reverse_pd"], lambda h: h["_mm256_reverse_pd"] + h["_mm256_hmax_pd"]),
-    "hmin256_pd": (["_mm256_hmin_pd", "_mm256_reverse_pd"], lambda h: h["_mm256_reverse_pd"] + h["_mm256_hmin_pd"]),
-    "sum256_ps": (["_mm256_sum_ps", "_mm_sum_ps"], lambda h: h["_mm_sum_ps"] + h["_mm256_sum_ps"][1:2]),
-    "prod256_ps": (["_mm256_prod_ps", "_mm_prod_ps"], lambda h: h["_mm_prod_ps"] + h["_mm256_prod_ps"]),
-    "sum256_pd": (["_mm256_sum_pd"], lambda h: h["_mm256_sum_pd"]),
-    "prod256_pd": (["_mm256_prod_pd"], lambda h: h["_mm256_prod_pd"]),
-}
+HSPEC_FNS = ["norm_float_4", "norm_float_9", "norm_double_4", "norm_double_9", "trace_float_2x2", "trace_float_3x3", "trace_double_2x2", "trace_double_3x3",
+             "det_float_2", "det_float_3", "det_double_2", "det_double_3", "doublecontract_float_2x2", "doublecontract_float_3x3",
+             "doublecontract_double_2x2", "doublecontract_double_3x3"]
 
 def hstep_group(isa, ds):
-    got = extract_helpers()
-    calls = []
-    for name, (deps, mk) in HSTEPS.items():
-        if "256" in name and isa in ("sse2", "sse42"):
-            continue
-        st = "ok" if all(got[d]["sha"] == HEXPECT[d][0] for d in deps) else "changed"
-        ims = "theorem" if all(got[d]["imms"] == HEXPECT[d][1] for d in deps) else "changed"
-        try:
-            imm = ",".join(str(v) for v in mk({d: got[d]["imms"] for d in deps}))
-        except Exception:
-            imm = ""
-        calls.append('hs_%s("%s", "%s", "%s", %du);' % (name, imm, st, ims, ds))
+    calls = ["hs_%s(%du);" % (name, ds) for name in HSTEP_FNS if not ("256" in name and isa in ("sse2", "sse42"))]
+    if isa in ("avx", "avx2", "avx512"):
+        # the intrinsic specialisations of _norm / _trace / _det / _doublecontract exist under AVX
+        calls += ["hp_%s(%du);" % (name, ds) for name in HSPEC_FNS]
     return {"key": "%s/hstep" % isa, "header": "reduce_hstep.h", "isa": isa, "opt": "-O2", "calls": calls}
 
 def _filtered(fn):
@@ -296,27 +242,132 @@ def static_coverage(tier, seed):
                                                         "inner_ladder": sum(1 for n in kinds.get("INNER", ()) if n > 4 * V)}}
     return cov
 
+ASSUMPTIONS = [
+    "vector primitives of the model are lane-wise by definition (real SIMDVector specialisations: C08; expression eval: C02 lanes_of_evalV)",
+    "the symbolic carrier's SIMDVector is the ideal lane-wise vector of harness/common/simd_sym.h; the real horizontal steps are covered by "
+    "the theorems about the definitions GENERATED from the source (vlib/xlate_simd.py, regenerated by this check) and by the hstep / hvec runs",
+    "Model/SimdIntrinsics.lean (semantics of the Intel intrinsics, validated against the CPU by C08) is trusted; the decoding hypotheses "
+    "Decodes32/64 (the FPU's lane max/min is the order's max/min on non-NaN values) and the commutative-monoid laws for exact data are hypotheses of the generated-code theorems",
+    "AVX-512 float/double sum/min/max are single compiler sequence intrinsics (_mm512_reduce_*), not library code: value-tested lane by lane (hvec)",
+    "integer-valued data for the exact real-type runs; integer arithmetic wraps",
+    "determinant<LU> / Simple for n>4 only on matrices for which the statically pre-pivoted LU exists (diagonally dominant, their row permutations, pivot ties)",
+    "floating-point error: the bound ((1+u)^depth - 1) sum|x_i| is a THEOREM about the modelled tree over the rounding model |fl(x)-x| <= u|x| "
+    "(sum_error_bound); that the FPU satisfies the rounding model is measured (fbound lines), not proved",
+    "different-rank inner(a,b) and trace of a non-square matrix are rejected at compile time (not in the box)",
+]
+
 def run(tier, seed):
+    """the standard flow (vlib/flow.py) with two changes: the SIMD helper definitions are REGENERATED from the repo before the
+    Lean build, and a build failure confined to this property's theorems does not stop the correspondence / oracle runs"""
+    from vlib import xlate_simd
     seeds = extract_seeds()
-    return flow.standard_run(
-        PID, tier, seed, "Fastor.C16.reduce_correct", "FastorModel.Model.Reduce", _filtered(sym_groups), _filtered(real_groups),
-        assumptions=["vector primitives of the model are lane-wise by definition (real SIMDVector specialisations: C08; expression eval: C02 lanes_of_evalV)",
-                     "the symbolic carrier's SIMDVector is the ideal lane-wise vector of harness/common/simd_sym.h; the real horizontal "
-                     "sum/product/minimum/maximum of each (T,ABI) are exercised by the real-type value runs only",
-                     "integer-valued data for the exact real-type runs; integer arithmetic wraps",
-                     "determinant<LU> / Simple for n>4 only on matrices for which the statically pre-pivoted LU exists (diagonally dominant and their row permutations)",
-                     "floating-point error bounds are measured (fbound lines), not proved",
-                     "the float/double SSE and AVX horizontal helpers of extintrin.h are modelled (Model/Horizontal.lean) with the shuffle immediates read from the source; "
-                     "the integer, AVX-512 (_mm512_reduce_*) and generic-vector horizontal steps are value-tested lane by lane (hvec lines) only",
-                     "seeds read from the source (X1): min -> %s, max -> %s" % (seeds["min"], seeds["max"])],
-        rule="symbolic cases: (cfg, sizeof T, kind, n, expression) instantiations of the real sum/product/Tensor::sum/Tensor::product/norm/inner/trace/determinant "
-             "templates over the exact polynomial carrier, compared with the Lean model on value, width, ordered vector loads, tail read set, read sets; "
-             "minmax cases: (cfg, T, op, form, seed, data vector) on the real element types compared with the model's result; pred: all 2^n masks; "
-             "non-trivial = the vector body runs at least once or the case is a min/max/predicate/determinant case",
-        nontrivial=lambda inp, mo: ("LV=0" not in mo) or not inp.startswith("reduce") or "k=det" in inp,
-        extra_cov={"seeds_from_source": seeds, "box": static_coverage(tier, seed),
-                   "horizontal_helpers": {k: v for k, v in extract_helpers().items()}},
-        ofail_key=ofail_key, per_tu=60)
+    v = core.Verdict(PID, tier, seed)
+    v.assumptions = ASSUMPTIONS + ["seeds read from the source (X1): min -> %s, max -> %s" % (seeds["min"], seeds["max"])]
+    regen_reports = {}
+    def regen(log):
+        # core.regen_generated has just regenerated Simd_<isa>.lean and C16Spec_<isa>.lean; collect the reports (nothing is rewritten twice)
+        from props import c16_xlate
+        regen_reports.update(xlate_simd.regenerate(xlate_simd.ISAS, core.REPO, None))
+        for isa, r in c16_xlate.regenerate(core.REPO, None).items():
+            regen_reports["spec_" + isa] = r
+    ok, info = core.proof_stage(v, PID, thorough=(tier == "thorough"), regen=regen)
+    v.cov["proof"] = {k: info.get(k) for k in ("build_ok", "problems", "failed_modules", "errors", "leanchecker", "log")}
+    v.cov["generated"] = {isa: {"translated": len(r.get("translated", ())), "untranslated": len(r.get("untranslated", ())), "rewritten": bool(r.get("changed"))}
+                          for isa, r in regen_reports.items()}
+    have_model = True
+    if not info.get("build_ok"):
+        mods = info.get("failed_modules", [])
+        v.violation("lean-build-failed " + ",".join(mods),
+                    {"kind": "proof-obligation", "detail": info,
+                     "note": "lake build failed after regenerating Generated/Simd_<isa>.lean from the repo: a theorem of Props/C16.lean about the "
+                             "generated helper definitions (or another module) no longer holds; the oracle runs below look for a failing input"}, nofail=True)
+        okm, _ = core.lake_build(targets=["fmodel"])
+        have_model = okm
+    sgf, rgf = _filtered(sym_groups), _filtered(real_groups)
+    with core.Scratch() as wd:
+        sg = sgf(tier, seed)
+        res = symrun.run_groups(sg, wd, per_tu=PER_TU)
+        if have_model:
+            n, mism, ofail, infra, lines = symrun.compare_with_model(res, v)
+        else:
+            n, mism, ofail, infra, lines = oracle_only(res)
+        og = rgf(tier, seed)
+        real_n, real_fail, rinfra, rsamples = flow.run_oracle_groups(og, wd, PER_TU)
+        flow.report_infra(v, infra + rinfra)
+        for f in ofail:
+            v.violation(ofail_key(f) or ("sym " + f["input"]), {"kind": "sym-oracle", "group": f["group"], "input": f["input"], "impl": f["impl"], "model": f["model"]})
+        for g, line, call in real_fail:
+            v.violation("real " + line.split("|")[0].strip(),
+                        {"kind": "real-oracle", "group": g["key"], "isa": g["isa"], "defs": list(g.get("defs", ())), "std": g.get("std", "c++14"),
+                         "opt": g.get("opt", "-O1"), "header": g["header"], "pre": g.get("pre", ""), "line": line, "call": call})
+        ofail_inputs = set(f["input"] for f in ofail)
+        mism = [m for m in mism if m["input"] not in ofail_inputs]
+        if mism:
+            keys = sorted(set(m["group"] for m in mism))
+            groups = [g for g in sgf("thorough", seed + 17) if g["key"] in keys]
+            res2 = symrun.run_groups(groups, wd, per_tu=PER_TU)
+            nn, mm2, of2, infra2, _ = symrun.compare_with_model(res2, v)
+            v.cov["search_evaluations"] = nn
+            if of2:
+                for f in of2[:5]:
+                    v.violation(ofail_key(f) or ("sym " + f["input"]), {"kind": "sym-oracle", "group": f["group"], "input": f["input"], "impl": f["impl"], "model": f["model"]})
+            else:
+                m0 = mism[0]
+                v.violation("correspondence " + m0["input"] + " fields=" + ",".join(m0["fields"]),
+                            {"kind": "correspondence", "broken": "model FastorModel.Model.Reduce (theorem Fastor.C16.reduce_correct is about this model) no longer "
+                             "describes the code: the observables listed in `fields` differ", "first": m0, "count": len(mism),
+                             "searched": nn, "others": [m["input"] for m in mism[1:10]]}, nofail=True)
+        if not ok and info.get("build_ok"):
+            v.violation("audit " + "; ".join(info.get("problems", []))[:200], {"kind": "audit", "detail": info.get("problems")}, nofail=True)
+    routes = {}
+    for inp, obs, mo in lines:
+        r = symrun.kv(mo).get("route", "-")
+        routes[r] = routes.get(r, 0) + 1
+    nontrivial = lambda inp, mo: ("LV=0" not in mo) or not inp.startswith("reduce") or "k=det" in inp
+    v.cov.update({"evaluations": n + real_n, "distinct_nontrivial": len(set(inp for inp, obs, mo in lines if nontrivial(inp, mo))),
+                  "rule": "symbolic cases: (cfg, sizeof T, kind, n, expression) instantiations of the real sum/product/Tensor::sum/Tensor::product/norm/inner/trace/determinant "
+                          "templates over the exact polynomial carrier, compared with the Lean model on value, width, ordered vector loads, tail read set, read sets, tree depth; "
+                          "minmax cases: (cfg, T, op, form, seed, data vector) on the real element types compared with the model's result; pred: all 2^n masks; hstep: the real "
+                          "extintrin.h helpers vs the generated Lean definitions executed on the same lanes; non-trivial = the vector body runs at least once or the case is a "
+                          "min/max/predicate/determinant/helper case",
+                  "samples": [{"input": l[0], "impl": l[1], "model": l[2]} for l in lines[:3]] + rsamples,
+                  "route_hits": routes, "sym_cases": n, "oracle_cases": real_n, "mismatches": len(mism),
+                  "oracle_failures": len(ofail) + len(real_fail), "configs": sorted(set(g["key"] for g in sg) | set(g["key"] for g in og)),
+                  "seeds_from_source": seeds, "box": static_coverage(tier, seed),
+                  "oracle_line_kinds": line_kinds(og)})
+    if symrun.REJECTED:
+        v.cov["compile_rejected"] = {"count": len(symrun.REJECTED), "examples": symrun.REJECTED[:8]}
+    return v.finish()
+
+PER_TU = 50
+
+def oracle_only(results):
+    """when fmodel cannot be built: judge the symbolic / model-routed lines on their in-harness ORACLE field only"""
+    n = 0; ofail = []; infra = []; lines = []
+    for r in results:
+        res = r["res"]; g = r["group"]
+        if res.get("rejected"):
+            continue
+        if res["rc_compile"] != 0:
+            infra.append({"group": g["key"], "what": "compile", "calls": r["calls"][:3], "out": res["compile_out"][-3000:]}); continue
+        for line in res["out"].split("\n"):
+            if "|" not in line:
+                continue
+            inp, obs = line.split("|", 1); n += 1
+            io = symrun.kv(obs)
+            lines.append((inp.strip(), obs.strip(), ""))
+            if io.get("ORACLE", "ok") != "ok" or io.get("OOB", "0") != "0":
+                ofail.append({"group": g["key"], "input": inp.strip(), "impl": obs.strip(), "model": "(fmodel not built)"})
+    return n, [], ofail, infra, lines
+
+def line_kinds(groups):
+    kinds = {}
+    for g in groups:
+        for c in g["calls"]:
+            m = re.match(r"rr::run_(\w+)<", c)
+            if m:
+                kinds[m.group(1)] = kinds.get(m.group(1), 0) + 1
+    return kinds
 
 def sym_call_of(inp):
     d = symrun.kv(inp)
@@ -353,7 +404,9 @@ def sym_call_of(inp):
         return {"key": "replay", "header": "reduce_real.h", "isa": d["cfg"], "opt": "-O2", "calls": [call]}
     if cmd == "hstep":
         return {"key": "replay", "header": "reduce_hstep.h", "isa": d["cfg"], "opt": "-O2",
-                "calls": ['hs_%s("%s", "%s", "%s", %su);' % (d["fn"], d.get("imm", ""), d["struct"], d["imms"], d["ds"])]}
+                "calls": ["hs_%s(%su);" % (d["fn"], d["ds"])]}
+    if cmd == "hspec":
+        return {"key": "replay", "header": "reduce_hstep.h", "isa": d["cfg"], "opt": "-O2", "calls": ["hp_%s(%su);" % (d["fn"], d["ds"])]}
     raise ValueError("cannot rebuild " + inp)
 
 def replay(path):
